@@ -253,6 +253,16 @@ type frame0 struct{}
 func (x *Exec) paramVal(st *State, prm *ssa.Parameter) Val {
 	name := prm.Name()
 	t := types.Unalias(prm.Type())
+	if _, isMap := t.Underlying().(*types.Map); isMap {
+		if s := SortOf(t); s != nil && isMapSort(s) {
+			// maps are reference values: the parameter is a handle to a map object with arbitrary initial content
+			o := x.newObj(t, name)
+			v := Sym("in_"+name, s)
+			x.inputs[name] = v
+			st.mem[o] = v
+			return &MapRef{Obj: o}
+		}
+	}
 	if s := SortOf(t); s != nil {
 		v := Sym("in_"+name, s)
 		st.assume(TypeInv(v, t, 0))
